@@ -16665,7 +16665,12 @@ func (msg *BGPUpdate) DecodeFromBytes(data []byte, options ...*MarshallingOption
 			return strongestError
 		}
 		data = data[p.Len(options...):]
-		if e == nil || e.(*MessageError).ErrorHandling != ERROR_HANDLING_ATTRIBUTE_DISCARD {
+		// Keep only attributes that decoded completely. A malformed one is
+		// either discarded or makes the whole UPDATE a withdraw (RFC 7606);
+		// in both cases its content must not be used, and a partially
+		// decoded value cannot be rendered or serialised safely by the
+		// consumers of the returned message.
+		if e == nil {
 			msg.PathAttributes = append(msg.PathAttributes, p)
 		}
 	}
